@@ -190,6 +190,8 @@ impl<T: TearableAtomic> SyncCellReader<T> {
             if let Ok(value) = self.try_read() {
                 return value;
             }
+            #[cfg(feature = "verif-hooks")]
+            crate::verif::spin_hint();
         }
     }
 }
